@@ -120,6 +120,8 @@ pub fn run(tier: &str, seed: u64, outdir: &str) {
         vec![("name", "2147483648"), ("age", "2147483647"), ("sex", "-0"), ("height", "0042")],
         vec![("name", " 12"), ("age", "1e3"), ("sex", "١٢"), ("height", "-")],
         vec![("name", "true"), ("age", "false"), ("sex", "True"), ("height", "null")],
+        // surrounding whitespace (round 10: a conversion that trims the raw value)
+        vec![("name", "line one\nline two\n"), ("age", "12 "), ("sex", "\t"), ("height", " x \u{a0}")],
     ];
     for (i, vals) in edge.iter().enumerate() {
         pool.push((vw::issue(&w.cds, 0, &w.holders[0], vals, None), 0, None, "edge-values"));
